@@ -71,7 +71,8 @@ def run_conv(rec, case):
     transport = rng.choice(['polling', 'websocket', 'upgrade'])
     pi, pt = rng.choice(HB)
     async_handlers = rng.random() < 0.3
-    sched_seed = rng.randrange(1 << 30) if (pair not in ('AA', 'AH', 'RH') and
+    sched_seed = rng.randrange(1 << 30) if (pair not in (
+        'AA', 'AH', 'RH', 'AN', 'RN') and
                                             rng.random() < 0.5) else 0
     rec.evaluations += 1
     w = cli.PAIRS[pair]({'ping_interval': pi, 'ping_timeout': pt,
@@ -294,8 +295,8 @@ def run_conv(rec, case):
 def plan(tier, seed):
     per = 8000 if tier == 'thorough' else 220
     shards = []
-    for pair in ('TT', 'AA', 'TA', 'AT', 'AH', 'TH', 'RH'):
-        for s in range(4 if pair not in ('AH', 'TH', 'RH') else 2):
+    for pair in ('TT', 'AA', 'TA', 'AT', 'AH', 'TH', 'RH', 'AN', 'TN', 'RN'):
+        for s in range(4 if len(pair) == 2 and pair[1] in 'TA' else 2):
             shards.append({'seed': seed, 'pair': pair, 'shard': s, 'n': per})
     return shards
 
